@@ -846,10 +846,18 @@ func findSinkType(params *filterParams, parent ast.Node, kv *ast.KeyValueExpr, e
 				continue
 			}
 			sig := findContainingFunc(params)
-			if sig == nil {
+			// `return g()` with a multi-valued g(): no single result type.
+			if sig == nil || sig.Results().Len() != len(parent.Results) {
 				break
 			}
 			return sig.Results().At(i).Type()
+		}
+
+	case *ast.SendStmt:
+		if astutil.Unparen(parent.Value) == e {
+			if ch, ok := params.ctx.Types.TypeOf(parent.Chan).Underlying().(*types.Chan); ok {
+				return ch.Elem()
+			}
 		}
 
 	case *ast.IndexExpr:
